@@ -404,16 +404,67 @@ def rand_integrals(rng, nmo, lim=2):
     return rng.choice([0, 1, -2]), h, g
 
 
+ROTATIONS = {
+    # exact unitary orbital rotations U = W / sqrt(2)^m with Gaussian-integer W: the rotated tensors are Gaussian dyadic.
+    # They leave only the general (Hermitian, particle-exchange) 4-fold symmetry g_pqrs = g_qpsr = conj(g_srqp).
+    "phase": lambda n: ([[(1, 1j, -1, -1j)[p % 4] if p == q else 0 for q in range(n)] for p in range(n)], 0),
+    "hadamard-phase": lambda n: ([[1, 1j], [1, -1j]], 1) if n == 2 else None,
+}
+
+
+def rotated_tensors(ints):
+    """h'_pq = sum conj(U_ap) h_ab U_bq ; g'_pqrs = sum conj(U_ap) conj(U_bq) U_cr U_ds g_abcd  (documented index order:
+    p, q belong to the complex-conjugated orbitals).  Exact: integer / Gaussian arithmetic, one division by 2^m, 4^m."""
+    from fractions import Fraction
+    n, h, g = ints["nmo"], ints["h"], ints["g"]
+    W, m = ROTATIONS[ints["rot"]](n)
+    R = range(n)
+    cj = lambda z: complex(z).conjugate()      # noqa: E731
+    h2 = [[sum(cj(W[a][p]) * h[a][b] * W[b][q] for a in R for b in R) / 2 ** m for q in R] for p in R]
+    g2 = [[[[sum(cj(W[a][p]) * cj(W[b][q]) * W[c][r] * W[d][s_] * g[a][b][c][d] for a in R for b in R for c in R for d in R) / 4 ** m
+             for s_ in R] for r in R] for q in R] for p in R]
+    return h2, g2
+
+
+def hamiltonian_from_ints(ints):
+    """the fermionic Hamiltonian of the corpus entry `ints`: through SecondQuantizedMolecule for real 8-fold symmetric
+    integrals; for rotated (complex, 4-fold symmetric) tensors directly through the code's FermionOperator class in the
+    same term format (a+_p a+_q a_r a_s, coefficient g/2), because openfermion's spinorb_from_spatial is real-only."""
+    if not ints.get("rot"):
+        return synth_hamiltonian(ints["nmo"], ints["c0"], ints["h"], ints["g"])
+    n = ints["nmo"]
+    h2, g2 = rotated_tensors(ints)
+    items = [(ints["c0"], ())] if ints["c0"] else []
+    R = range(n)
+    for p in R:
+        for q in R:
+            for s1 in (0, 1):
+                if h2[p][q] != 0:
+                    items.append((h2[p][q], ((2 * p + s1, 1), (2 * q + s1, 0))))
+                for r in R:
+                    for t in R:
+                        for s2 in (0, 1):
+                            if g2[p][q][r][t] != 0:
+                                items.append((g2[p][q][r][t] / 2, ((2 * p + s1, 1), (2 * q + s2, 1), (2 * r + s2, 0), (2 * t + s1, 0))))
+    return fsum(items)
+
+
 def compression_config(B, rng, quick):
     from tangelo.toolboxes.qubit_mappings.mapping_transform import fermion_to_qubit_mapping
     from tangelo.toolboxes.qubit_mappings.combinatorial import combinatorial
     chk = B.chk
-    plan = [(2, 10 if quick else 40), (3, 3 if quick else 12)]
+    plan = [(2, 12 if quick else 40), (3, 3 if quick else 12)]
     for nmo, count in plan:
         for x in range(count):
             c0, h, g = rand_integrals(rng, nmo)
-            ints = {"nmo": nmo, "c0": c0, "h": h, "g": g}
-            H = synth_hamiltonian(nmo, c0, h, g)
+            # every third entry (every second for 2 orbitals) is rotated to complex, only 4-fold symmetric integrals
+            rot = None
+            if nmo == 2 and x % 2 == 1:
+                rot = "hadamard-phase" if x % 4 == 1 else "phase"
+            elif nmo == 3 and x % 3 == 2:
+                rot = "phase"
+            ints = {"nmo": nmo, "c0": c0, "h": h, "g": g, "rot": rot}
+            H = hamiltonian_from_ints(ints)
             fj = fop_json(H)
             # --- HCB
             cfg = Cfg("HCB", 2 * nmo, False)
@@ -631,7 +682,7 @@ def replay(chk, rec):
         if cfg is None:
             print("recorded exception case (compression encoders):", str(how)[:2000])
             ints = how["ints"]
-            H = synth_hamiltonian(ints["nmo"], ints["c0"], ints["h"], ints["g"])
+            H = hamiltonian_from_ints(ints)
             try:
                 if how["class"] == "hcb":
                     from tangelo.toolboxes.qubit_mappings.mapping_transform import fermion_to_qubit_mapping
@@ -677,7 +728,7 @@ def replay(chk, rec):
         from tangelo.toolboxes.qubit_mappings.mapping_transform import fermion_to_qubit_mapping
         from tangelo.toolboxes.qubit_mappings.combinatorial import combinatorial
         ints = m["how"]["ints"]
-        H = synth_hamiltonian(ints["nmo"], ints["c0"], ints["h"], ints["g"])
+        H = hamiltonian_from_ints(ints)
         rr["f"] = fop_json(H)
         if rr["k"] == "hcb":
             rr["img"] = qubit_op_to_json(fermion_to_qubit_mapping(H, "HCB"), rr["nmo"], M)
